@@ -133,6 +133,16 @@ LAYERS = {
         {"name": "A", "request": rq(C("sid", 0x22), V("x")), "neg": [rq(C("sid", 0x7F), MR("rsid"), NRC("nrc", [0x11]))]},
         {"name": "B", "request": rq(C("sid", 0x22), V("y"), V("z"))},
     ], "gnr": [rq(C("sid", 0x7F), MR("rsid"), V("code"), V("extra"))]},
+    # the request echo of the response straddles the end of the request's constant prefix
+    "echo-straddles-prefix": {"services": [
+        {"name": "A", "request": rq(C("sid", 0x22), C("hi", 0xF1), V("lo")),
+         "pos": [rq(C("sid", 0x62), MR("echo", 1, 2), V("data"))]},
+        {"name": "B", "request": rq(C("sid", 0x10), V("s")), "pos": [rq(C("sid", 0x50), V("s"))]},
+    ]},
+    "sid-ff": {"services": [
+        {"name": "A", "request": rq(C("sid", 0xFF), V("x")), "pos": [rq(C("sid", 0x3F), V("y"))]},
+        {"name": "B", "request": rq(C("sid", 0x00), V("x"))},
+    ]},
     "sid-16-bit": {"services": [
         {"name": "A", "request": rq(C("sid", 0x2201, 16), V("x"))},
         {"name": "B", "request": rq(C("sid", 0x22, 8), C("did", 0x02, 8), V("y"))},
@@ -365,6 +375,9 @@ def run_own(sx, cfg, env):
         try:
             grp = groups[first]
         except KeyError:
+            grp = []
+        except Exception as e:  # noqa: BLE001
+            sx.observe("exception", type(e).__name__)
             grp = []
         sx.require(any(s.short_name == sv["name"] for s in grp or []),
                    "service-filed-under-first-request-byte")
